@@ -29,6 +29,17 @@ claim("C07",
       "Trusted: python ast; own call resolution (module functions, self.methods via MRO, unique names); dict order is insertion order.",
       "DESIGN.md §4 C07")
 
+claim("C15",
+      "guard/effect and pairing analysis over ast + call graph (emitter guards in main_with_args, cfiles/ffiles "
+      "registration paired with write_output_file, directory per emitter, wrap-flag propagation guards, "
+      "Python/Lua non-interference reads, per-declaration entry guards)",
+      "Decides from the current source that every file write is registered with identical name/dir expressions and "
+      "goes to its emitter's directory option, that emitters only run under their own flag, that generated "
+      "declarations never get a language switched on that their source had off, and that the C/Fortran emitters read "
+      "no Python/Lua flag, option or format field. Equality of real output directories is not executed.",
+      "Trusted: python ast; call resolution by own symbol tables; domain assumption: Fortran is requested only together with C.",
+      "DESIGN.md §4 C15")
+
 PENDING = "check not built yet in this session (fail-closed: not claimed until its rules run clean)"
-for _p in ["C01","C02","C03","C06","C08","C09","C10","C11","C12","C13","C14","C15","C16","C17","C18"]:
+for _p in ["C01","C02","C03","C06","C08","C09","C10","C11","C12","C13","C14","C16","C17","C18"]:
     na(_p, PENDING)
